@@ -6,11 +6,10 @@ CONSTANTS
   BadNames <- MCBad
   Templates <- MCTemplates
   Paths <- MCPaths
-  MaxAdds = 6
+  MaxAdds = 7
   MaxDepth = 3
-  MaxPathLen = 4
-  Depth = 10
+  MaxPathLen = 3
+  Depth = 12
   Rollback = TRUE
   ResetOnAdd = TRUE
-INVARIANT FindIsIdealDFS
 INVARIANT Emit
